@@ -205,8 +205,12 @@ fn run(prop_id: &str, tier: &str) -> i32 {
             }
         }
     }
+    // reproductions that belong to the Python leg go to the Hypothesis harness
+    let (py_lines, reg_lines): (Vec<String>, Vec<String>) = reg_lines.into_iter().partition(|l| serde_json::from_str::<Value>(l).ok().and_then(|v| v["sub"].as_str().map(|s| s.starts_with("py_"))).unwrap_or(false));
     let reg_file = out_dir.join("regressions.jsonl");
     let _ = std::fs::write(&reg_file, reg_lines.join("\n"));
+    let py_reg_file = out_dir.join("regressions-py.jsonl");
+    let _ = std::fs::write(&py_reg_file, py_lines.join("\n"));
 
     let mut children = vec![];
     let spawn = |bin: &Path, extra: Vec<String>, profile: &str, worker: u64, of: u64, scale: f64| -> std::io::Result<std::process::Child> {
@@ -247,7 +251,7 @@ fn run(prop_id: &str, tier: &str) -> i32 {
         }
     }
     // ---- external legs (python)
-    for (name, ch) in jlverif::external::spawn_external(prop_id, tier, seed, &root, &out_dir) {
+    for (name, ch) in jlverif::external::spawn_external(prop_id, tier, seed, &root, &out_dir, &py_reg_file) {
         children.push((name, ch));
     }
 
@@ -262,7 +266,7 @@ fn run(prop_id: &str, tier: &str) -> i32 {
         let tag = if profile == "regress" { format!("w900-{}-regress", w) } else if profile == "external" { w.to_string() } else { format!("w{}-{}", w, profile) };
         let json_file = out_dir.join(format!("{}.json", tag));
         let hang_file = out_dir.join(format!("{}.hang", tag));
-        let cur_file = out_dir.join(format!("{}.current", tag));
+        let cur_file = if profile == "external" { out_dir.join(format!("{}.json.current", tag)) } else { out_dir.join(format!("{}.current", tag)) };
         match st {
             None => inconclusive.push(format!("worker {} exceeded the wall-clock limit", name)),
             Some(s) if s.success() => {
@@ -274,7 +278,18 @@ fn run(prop_id: &str, tier: &str) -> i32 {
                 // abnormal exit: hang (97), signal, abort, stack overflow
                 let hang = std::fs::read_to_string(&hang_file).ok().and_then(|t| serde_json::from_str::<Value>(&t).ok());
                 let cur = std::fs::read_to_string(&cur_file).ok().and_then(|t| serde_json::from_str::<Value>(t.trim()).ok());
-                if prop_id == "C01" {
+                if profile == "external" {
+                    // the Python interpreter died (abort, fatal signal) while making this call
+                    match cur {
+                        Some(c) => findings.push(Finding {
+                            sub: c["sub"].as_str().unwrap_or("py").into(),
+                            case_text: c["case_text"].as_str().unwrap_or("null").to_string(),
+                            msg: format!("the Python interpreter died while making this call ({:?}): the module must raise an ordinary exception instead of crashing the interpreter", s),
+                            profile: w.into(),
+                        }),
+                        None => inconclusive.push(format!("the python leg {} ended abnormally ({:?})", w, s)),
+                    }
+                } else if prop_id == "C01" {
                     if let Some(h) = hang {
                         findings.push(Finding { sub: h["sub"].as_str().unwrap_or("").into(), case_text: h["case_text"].as_str().unwrap_or("null").to_string(), msg: h["msg"].as_str().unwrap_or("hang").into(), profile: profile.into() });
                     } else if let Some(c) = cur {
@@ -303,6 +318,11 @@ fn run(prop_id: &str, tier: &str) -> i32 {
         }
     }
 
+    for (name, _, _) in props::external_about(prop_id) {
+        if !merged.subs.contains_key(name) {
+            inconclusive.push(format!("the python leg did not report sub-check {}", name));
+        }
+    }
     // ---- report
     let wall = started.elapsed().as_secs_f64();
     let replay_dir = root.join("replays").join(prop_id);
@@ -410,6 +430,9 @@ fn write_evidence(root: &Path, prop: &runner::Property, tier: &str, seed: u64, m
             exhaustive_subs.push(s.name.to_string());
         }
     }
+    for (name, about, nt) in props::external_about(prop.id) {
+        rule_parts.push(format!("[{}] {} Non-trivial: {}", name, about, nt));
+    }
     // sub-checks reported by external workers (python) that are not in the Rust table
     for (name, m) in &merged.subs {
         if !prop.subs.iter().any(|s| s.name == name) {
@@ -476,6 +499,57 @@ fn replay(prop_id: &str, file: &str) -> i32 {
     let rf = out_dir.join("replay.jsonl");
     let _ = std::fs::write(&rf, line);
     let mut worst = 0;
+    let sub_name = v["sub"].as_str().unwrap_or("").to_string();
+    if sub_name.starts_with("py_") {
+        // python sub-check: re-execute through the Hypothesis harness's bodies, in both builds of the extension
+        let case_file = out_dir.join("case.json");
+        let text = match v["case_text"].as_str() {
+            Some(t) => t.to_string(),
+            None => v["case"].to_string(),
+        };
+        let _ = std::fs::write(&case_file, text);
+        let py = std::env::var("JLV_PYTHON").unwrap_or_else(|_| "python3-vt".to_string());
+        for pkg in ["dev", "release"] {
+            let out = out_dir.join(format!("py-{}.json", pkg));
+            let st = Command::new(&py)
+                .arg(root.join("py").join("check_py.py"))
+                .args(["--prop", prop_id, "--pkg", pkg, "--replay-sub", &sub_name])
+                .args(["--replay-case-file", &case_file.to_string_lossy(), "--out", &out.to_string_lossy()])
+                .env("RUST_BACKTRACE", "0")
+                .stdout(Stdio::null())
+                .status();
+            match st {
+                Ok(s) if s.success() => {
+                    let mut merged = Merged { subs: BTreeMap::new() };
+                    let _ = runner::merge_worker_file(&mut merged, &out);
+                    let mut bad = false;
+                    for (sub, m) in &merged.subs {
+                        for viol in &m.violations {
+                            bad = true;
+                            println!("VIOLATION property={} replay={}", prop_id, file);
+                            println!("  [{}] sub-check {}: {}", pkg, sub, viol["msg"].as_str().unwrap_or(""));
+                        }
+                    }
+                    if bad {
+                        worst = worst.max(1);
+                    } else {
+                        println!("[python {}] replay passes: the property holds on this case", pkg);
+                    }
+                }
+                Ok(s) => {
+                    println!("VIOLATION property={} replay={}", prop_id, file);
+                    println!("  [python {}] the interpreter died while replaying the case: {:?}", pkg, s);
+                    worst = worst.max(1);
+                }
+                Err(e) => {
+                    println!("cannot spawn python: {}", e);
+                    worst = worst.max(2);
+                }
+            }
+        }
+        let _ = std::fs::remove_dir_all(&out_dir);
+        return worst;
+    }
     for (profile, bin) in profile_bins() {
         let st = Command::new(&bin)
             .arg("worker")
